@@ -105,9 +105,9 @@ def harnesses(tier):
         for ws in ["11", "12", "13", "14", "21", "22", "31", "41", "111"]:
             hs.append(text_h("c03_text_w" + ws, ws, "every text of %d characters with UTF-8 widths %s, each any Unicode scalar value "
                              "of that width" % (len(ws), "+".join(ws))))
-    consts = ["hex_0", "hex_16", "dec_any_3"]
+    consts = ["hex_0", "hex_16", "dec_any_3", "hex_any_3"]
     if tier == "thorough":
-        consts += ["hex_any_3", "oct_any_3", "hex_1", "dec_1", "oct_0", "hex_15", "hex_16u", "hex_17", "dec_18", "dec_19", "dec_20", "oct_21", "oct_22"]
+        consts += ["oct_any_3", "hex_1", "dec_1", "oct_0", "hex_15", "hex_16u", "hex_17", "dec_18", "dec_19", "dec_20", "oct_21", "oct_22"]
     def const_cases(c):
         """Explicit inputs for the native enumeration replay: the boundary constants of the radix with that many digits."""
         radix = {"hex": 16, "dec": 10, "oct": 8}[c.split("_")[0]]
